@@ -22,7 +22,7 @@ PROBES = ["factor0", "factor1", "negative", "factor_ge2", "self_link", "parallel
           "given_names", "auto_names_collision", "name_with_star", "distribute_L", "distribute_R",
           "distribute_auto", "distribute_equal", "counts_divided", "id_tagged_edge", "gfa2_graph", "bad_copy_names",
           "auto_names_collision_nonsegment", "mentioned_identifier", "not_a_segment", "track_origin",
-          "copy_value_edited_in_place"]
+          "copy_value_edited_in_place", "count_not_integer"]
 
 
 def gen(streams, tier, i):
@@ -44,6 +44,17 @@ def gen(streams, tier, i):
         lines = [ln + ("\t%s:i:%d" % (dr2.choice(["RC", "FC", "KC"]), dr2.randint(0, 200))
                        if (ln.startswith("E\t") and dr2.random() < 0.5) else "") for ln in lines]
     sr = streams.get("schedule")
+    badcount = False
+    bc = streams.get("badcount")
+    if bc.random() < 0.08:
+        # one edge carries a count that is not an integer (a custom datatype where the tag is not predefined):
+        # multiplying a segment of that edge is refused, and refused before any count is divided
+        idx = [j for j, ln in enumerate(lines) if ln.split("\t")[0] in (("C",) if version == "gfa1" else ("E",))
+               and not any(t[:2] in ("KC", "RC", "FC") for t in ln.split("\t")[5:])]
+        if idx:
+            j = bc.choice(idx)
+            lines = lines[:j] + [lines[j] + ("\tKC:Z:many" if version == "gfa1" else "\tRC:f:10.5")] + lines[j + 1:]
+            badcount = True
     order, mode = hist.schedule(sr, lines)
     hr = streams.get("history")
     segs = doc["segs"]
@@ -83,7 +94,7 @@ def gen(streams, tier, i):
     for ln in order + extra:
         ops.append({"op": "add", "line": ln, "as": "str"})
     track = hr.random() < 0.2
-    ops.append({"op": "multiply", "seg": notseg or seg, "notseg": bool(notseg), "factor": factor, "track": track, "distribute": distribute, "copy_names": copy_names,
+    ops.append({"op": "multiply", "seg": notseg or seg, "notseg": bool(notseg), "factor": factor, "track": track, "badcount": badcount, "distribute": distribute, "copy_names": copy_names,
                 "by": hr.choice(["name", "line"]), "bad_names": bad_names})
     return {"cfg": {"order": mode, "version": version}, "ops": ops}
 
@@ -204,6 +215,17 @@ def run(scn, st):
                                      (seg, k, "returned" if o.ok else "raised " + o.excname), factor="neg")
             if ob.observe(g) != pre_obs:
                 raise core.Violation("negative-factor-changed", "refused multiply changed the Gfa", factor="neg")
+            continue
+        if op.get("badcount") and k >= 2 and any(any(t in ("KC:Z:many", "RC:f:10.5") for t in f) for f in mine):
+            # a count of one of the segment's edges cannot be divided
+            st.count("probe.count_not_integer")
+            if o.ok:
+                return      # (how such a count is divided is not stated)
+            if ob.observe(g) != pre_obs:
+                from .c08 import diff_obs
+                raise core.Violation("refused-multiply-changed", "multiply(%s, %d) raised %s (a count of an edge is not an "
+                                     "integer) but changed the Gfa: %s" % (seg, k, o.excname, diff_obs(pre_obs, ob.observe(g))[:300]),
+                                     factor=min(k, 2), what="counts")
             continue
         if op.get("bad_names"):
             st.count("probe.bad_copy_names")
